@@ -48,6 +48,7 @@ Record regen_facts := {
   rf_nml : list cls_items;            (* nml.py: class-body items that are not generateDS templates *)
   rf_dangling : list (string * string); (* (spec, class) where the spec names a class that does not exist *)
   rf_binding_classes : list string;   (* sorted *)
+  rf_exported_classes : list string;  (* sorted: binding classes reachable as neuroml.<Name> (star import of __all__) *)
   rf_complex_types : list string;     (* sorted, of NeuroML_<current>.xsd *)
   rf_current : string;
   rf_header_schema : string;
@@ -63,6 +64,7 @@ Definition regen_ok (f : regen_facts) : bool :=
   tab_eqb (rf_src f) (rf_nml f)
   && match rf_dangling f with [] => true | _ => false end
   && strs_eqb (rf_binding_classes f) (rf_complex_types f)
+  && strs_eqb (rf_exported_classes f) (rf_complex_types f)
   && String.eqb (rf_header_schema f) (schema_of (rf_current f))
   && String.eqb (rf_writer_schema f) (schema_of (rf_current f))
   && String.eqb (rf_regen_schema f) (schema_of (rf_current f))
